@@ -12,6 +12,8 @@
      of the move (chosen by the environment), `_idleResetTime` writes are dropped.
    - The worker list `_threads` / `_terminated` (bookkeeping for Thread objects) is not modelled.
    - counters are unbounded integers (no wrap at 2^64).
+   - `delete` of a Future = its destructor (join) followed by EvDestroy; the object is not used
+     again (the check's driver gives the object created afterwards a fresh future index).
    Fields marked GHOST are history variables: no decision of the model reads them. *)
 From Coq Require Import ZArith List Bool Lia.
 From Common Require Import ListAux.
@@ -149,9 +151,12 @@ Inductive cop :=
 | CJoin (f : nat)
 | CGet (f : nat)                            (* operator const A&: join, then read result *)
 | CCheck (f : nat)
-| CPause.
+| CPause
+| CDestroy (f : nat)                        (* ~Future: join(); the object is gone afterwards (delete) *)
+| CResume (f n : nat) (v : Z).              (* not a script operation: return address of a started function
+                                               that itself started a future (c_nested only), see WCall *)
 
-Inductive after := AStart (arg : Z) (work : nat) | AJoin | AGet.
+Inductive after := AStart (arg : Z) (work : nat) | AJoin | AGet | ADestroy.
 
 Inductive kont :=
 | KRunPush1 (j : job) | KRunPush2 (j : job) | KRunReset (j : job) | KRunWait (j : job) | KRunSet
@@ -182,8 +187,11 @@ Inductive pc :=
 | WStore (f n : nat) (v : Z)                   (* result = ... *)
 | WRdAbort (f n : nat)                         (* read _aborting *)
 | WSwap (f n : nat) (ab : bool)                (* swap(_state, ...) *)
-| WSigSet (f n : nat)                          (* _sig.set() *)
-| WIncProc.                                    (* increment(_processedJobs) *)
+| WSigSet (f n : nat)                          (* _sig.set(): lock; signaled = true; [broadcast;] unlock *)
+| WIncProc                                     (* increment(_processedJobs) *)
+| WBcast (f n : nat).                          (* Signal::set() as it was before fixes/C10/04: the
+                                                  pthread_cond_broadcast on the Future's condition
+                                                  variable AFTER the mutex has been released *)
 
 Record thread := mkThread { t_pc : pc; t_script : list (nat * cop); t_cur : nat }.
 
@@ -193,7 +201,8 @@ Inductive obs :=
 | OJoin (f : nat) (n : option nat)
 | OGet (f : nat) (n : option nat) (v : option Z)
 | OCheck (f n : nat) (st : fstate) (ab : bool)
-| OPause.
+| OPause
+| ODestroy (f : nat) (n : option nat).
 
 Inductive event :=
 | EvStart (c f n : nat) (arg : Z) (work : nat)
@@ -209,7 +218,10 @@ Inductive event :=
 | EvObs (c : nat) (op : nat) (o : obs)
 | EvSpawn (c w : nat)
 | EvShrink (c : nat)
-| EvExit (w : nat).
+| EvExit (w : nat)
+| EvBcast (w f n : nat)                 (* late broadcast (only with c_sigfix = false) *)
+| EvDestroy (c f : nat) (clean : bool). (* ~Future has returned; clean = no worker still holds or uses
+                                           the call record / the Future (GHOST, see fut_unused) *)
 
 Record config := mkConfig {
   c_cap : Z;                               (* effective queue capacity (after rounding) *)
@@ -218,9 +230,15 @@ Record config := mkConfig {
   c_nfut : nat;
   c_scripts : list (list (nat * cop));     (* one script per client thread; ops carry their index *)
   c_fn : Z -> Z;                           (* the started function (argument -> return value) *)
-  c_fixed : bool                           (* true: the code after fixes/C10/01-03 (what the tree is
+  c_fixed : bool;                          (* true: the code after fixes/C10/01-03 (what the tree is
                                               now); false: the sleep/wake handshake as it was (only
                                               used by the refutation theorems) *)
+  c_sigfix : bool;                         (* true: Signal::set() broadcasts while it holds the mutex
+                                              (fixes/C10/04); false: it unlocked first, as it was (only
+                                              used by the refutation theorem) *)
+  c_nested : bool                          (* true: a started function with work >= 4 starts future
+                                              (work - 4) itself ("started from any threads"); the safety
+                                              theorems are stated for c_nested = false *)
 }.
 
 Record state := mkState {
@@ -341,6 +359,21 @@ Definition ring_event (t : nat) (e : revt) : event :=
   | RPopRead tk v => EvPopRead t tk v
   end.
 
+(* GHOST: does a worker at this pc still hold the call record of future f (it will read or write the
+   Future object later)?  Used only to label EvDestroy. *)
+Definition job_is (j : job) (f : nat) : bool :=
+  match j with JCall f' _ _ _ => Nat.eqb f' f | JNull => false end.
+Definition worker_uses (r : ring) (p : pc) (f : nat) : bool :=
+  match p with
+  | PRing _ (PopRead h) => job_is (nth (Z.to_nat h) (r_log r) JNull) f
+  | PRing _ (PopRelease _ j) => job_is j f
+  | PFs (KWSet j) _ _ | PFs (KWRearm j) _ _ => job_is j f
+  | WCall f' _ _ _ | WStore f' _ _ | WRdAbort f' _ | WSwap f' _ _ | WSigSet f' _ | WBcast f' _ => Nat.eqb f' f
+  | _ => false
+  end.
+Definition fut_unused (s : state) (f : nat) : bool :=
+  forallb (fun th => negb (worker_uses (st_ring s) (t_pc th) f)) (st_threads s).
+
 (* after join(): continue with the operation that asked for it *)
 Definition finish_join (cfg : config) (s : state) (t : nat) (f : nat) (a : after) (joined : option nat) : state * list event :=
   let th := get_thread s t in
@@ -348,6 +381,7 @@ Definition finish_join (cfg : config) (s : state) (t : nat) (f : nat) (a : after
   | AStart arg work => (goto s t (CStartSet f arg work), [])
   | AJoin => (goto s t PIdle, [EvObs t (t_cur th) (OJoin f joined)])
   | AGet => (goto s t PIdle, [EvObs t (t_cur th) (OGet f joined (f_result (get_fut s f)))])
+  | ADestroy => (goto s t PIdle, [EvObs t (t_cur th) (ODestroy f joined); EvDestroy t f (fut_unused s f)])
   end.
 
 Definition join_or (cfg : config) (s : state) (t : nat) (f : nat) (a : after) : state * list event :=
@@ -378,6 +412,9 @@ Definition step (cfg : config) (s : state) (t : nat) (clk : bool) : state * list
               let x := get_fut s f in
               (s, [EvObs t i (OCheck f (f_serial x) (f_state x) (f_aborting x))])
           | CPause => (s, [EvObs t i OPause])
+          | CDestroy f => join_or cfg s t f ADestroy
+          | CResume f n v =>
+              if c_nested cfg then (goto s t (WStore f n v), []) else (s, [EvObs t i OPause])
           end
       end
   | CSpin f arg work =>
@@ -444,6 +481,13 @@ Definition step (cfg : config) (s : state) (t : nat) (clk : bool) : state * list
   | WCall f n arg work =>
       let x := get_fut s f in
       if (work =? 3)%nat && negb (f_aborting x) then (s, [])
+      else if c_nested cfg && (4 <=? work)%nat then
+        (* the started function starts future (work - 4) with argument arg + 1 (function 0) and then
+           returns: this thread runs Future::start like a client and comes back through CResume *)
+        let i := t_cur th in
+        let s1 := put_fut s f (fut_phase x (PhRan t)) in
+        (set_threads s1 (upd t (mkThread PIdle [(i, CStart (work - 4) (arg + 1) 0%nat); (i, CResume f n (c_fn cfg arg))] i)
+                             (st_threads s1)), [EvRun t f n arg])
       else (goto (put_fut s f (fut_phase x (PhRan t))) t (WStore f n (c_fn cfg arg)), [EvRun t f n arg])
   | WStore f n v =>
       (goto (put_fut s f (fut_result (get_fut s f) (Some v))) t (WRdAbort f n), [EvStore f n v])
@@ -454,8 +498,10 @@ Definition step (cfg : config) (s : state) (t : nat) (clk : bool) : state * list
        [EvComplete f n ab])
   | WSigSet f n =>
       let x := get_fut s f in
-      (goto (put_fut s f (fut_phase (fut_sig x true) PhSignalled)) t WIncProc, [EvSigSet f n])
+      (goto (put_fut s f (fut_phase (fut_sig x true) PhSignalled)) t (if c_sigfix cfg then WIncProc else WBcast f n),
+       [EvSigSet f n])
   | WIncProc => (goto (set_processed s (st_processed s + 1)) t worker_entry, [])
+  | WBcast f n => (goto s t WIncProc, [EvBcast t f n])
   end.
 
 (* a thread that cannot change the state (waiting, spinning, ended, not existing) *)
@@ -504,6 +550,6 @@ Definition hooked (p : pc) : bool :=
   | CSpin _ _ _ | CSwapPool _ _ _ => true
   | CJoinWait _ _ | CJoinReset _ _ => true
   | CInc | CGrowLock | CShrinkLock | CSpawn => true
-  | WSwap _ _ _ | WSigSet _ _ | WIncProc => true
+  | WSwap _ _ _ | WSigSet _ _ | WIncProc | WBcast _ _ => true
   | _ => false
   end.
